@@ -24,6 +24,8 @@ type tracerObj struct{}
 type mutexState struct {
 	writer  bool
 	readers int
+	relVC   vclock // released by the last writer unlock (and WaitGroup.Done / Once)
+	readVC  vclock // released by reader unlocks
 }
 
 func (ex *Exec) freshInternal(label string, s Sort) *Term {
@@ -72,6 +74,7 @@ func (ex *Exec) cancelCtx(c *ctxObj, err Value) {
 		return
 	}
 	c.done.Closed = true
+	c.done.CloseVC = ex.releaseVC(c.done.CloseVC)
 	c.err = err
 	for _, ch := range c.children {
 		ex.cancelCtx(ch, err)
@@ -499,6 +502,8 @@ func BaseIntrinsics() map[string]IntrinsicFn {
 		ex.preemptPoint(fr)
 		ex.block("mutex Lock at "+ex.posOf(fr), func() bool { return !ms.writer && ms.readers == 0 })
 		ms.writer = true
+		ex.acquireVC(ms.relVC)
+		ex.acquireVC(ms.readVC)
 		return nil
 	}
 	unlock := func(ex *Exec, fr *frame, a []Value) Value {
@@ -507,6 +512,7 @@ func BaseIntrinsics() map[string]IntrinsicFn {
 			ex.crash("sync: unlock of unlocked mutex")
 		}
 		ms.writer = false
+		ms.relVC = ex.releaseVC(ms.relVC)
 		ex.preemptPoint(fr)
 		return nil
 	}
@@ -519,6 +525,7 @@ func BaseIntrinsics() map[string]IntrinsicFn {
 		ex.preemptPoint(fr)
 		ex.block("mutex RLock at "+ex.posOf(fr), func() bool { return !ms.writer })
 		ms.readers++
+		ex.acquireVC(ms.relVC)
 		return nil
 	}
 	m["(*sync.RWMutex).RUnlock"] = func(ex *Exec, fr *frame, a []Value) Value {
@@ -527,6 +534,7 @@ func BaseIntrinsics() map[string]IntrinsicFn {
 			ex.crash("sync: RUnlock of unlocked RWMutex")
 		}
 		ms.readers--
+		ms.readVC = ex.releaseVC(ms.readVC)
 		ex.preemptPoint(fr)
 		return nil
 	}
@@ -535,6 +543,9 @@ func BaseIntrinsics() map[string]IntrinsicFn {
 		if ms.readers == 0 {
 			ms.readers = 1
 			ex.call(fr, a[1], nil)
+			ms.relVC = ex.releaseVC(ms.relVC)
+		} else {
+			ex.acquireVC(ms.relVC)
 		}
 		return nil
 	}
@@ -546,11 +557,13 @@ func BaseIntrinsics() map[string]IntrinsicFn {
 	m["(*sync.WaitGroup).Done"] = func(ex *Exec, fr *frame, a []Value) Value {
 		ms := ex.mutexOf(a[0])
 		ms.readers--
+		ms.relVC = ex.releaseVC(ms.relVC)
 		return nil
 	}
 	m["(*sync.WaitGroup).Wait"] = func(ex *Exec, fr *frame, a []Value) Value {
 		ms := ex.mutexOf(a[0])
 		ex.block("WaitGroup.Wait", func() bool { return ms.readers <= 0 })
+		ex.acquireVC(ms.relVC)
 		return nil
 	}
 
@@ -559,6 +572,14 @@ func BaseIntrinsics() map[string]IntrinsicFn {
 		p := v.(*Value)
 		if p == nil {
 			ex.crash("nil pointer dereference (atomic)")
+		}
+		if ex.cfg.Race && ex.cur != nil {
+			// sequentially consistent atomics: acquire and release on the cell's clock
+			if ex.atomicVC == nil {
+				ex.atomicVC = map[*Value]vclock{}
+			}
+			ex.acquireVC(ex.atomicVC[p])
+			ex.atomicVC[p] = ex.releaseVC(ex.atomicVC[p])
 		}
 		return p
 	}
